@@ -394,8 +394,7 @@ def resolveActionConflicts (fuel : Nat) (actionable : List Key) : M (List Key) :
                 | [] => []
                 | y :: ys => if y = cu then wu :: ys else y :: replaceFirst ys
               modInstX k.1 fun y => { y with actionUids := replaceFirst y.actionUids }
-              -- REPAIRED behaviour (fixes/C09-scope-action-uid.diff; on the unpatched tree this is the region of the open
-              -- finding `dangling-scope-action`): scopes that registered the replaced action refer to the winning one
+              -- (repair 2a6b31b, formerly finding `dangling-scope-action`): scopes that registered the replaced action refer to the winning one
               modInstX k.1 fun y => { y with scopes := y.scopes.map fun (n, (fl, al)) => (n, (fl, al.map fun u => if u = cu then wu else u)) }
               if (← getAction? cu).isNone then pyRaise "KeyError" cu
               modifyRest fun r => { r with actions := OMap.erase cu r.actions }
